@@ -12,6 +12,7 @@ import (
 	"os/exec"
 	"path/filepath"
 	"sort"
+	"strings"
 	"syscall"
 	"time"
 
@@ -248,8 +249,12 @@ func RunReloadBinaryCase(seed int64, bin, workDir string) *HistResult {
 	}
 	mk := func(name string, pipes []string, task string, extra string, limited int, delay time.Duration) version {
 		y := "pipelines:\n"
+		script := "true"
+		if strings.Contains(extra, "PXV_VER") {
+			script = "echo ver=$PXV_VER" // (the pipeline-level environment of this version, seen by a command)
+		}
 		for _, p := range pipes {
-			y += fmt.Sprintf("  %s:\n    concurrency: 5\n%s    tasks:\n      %s:\n        script: [\"true\"]\n", p, extra, task)
+			y += fmt.Sprintf("  %s:\n    concurrency: 5\n%s    tasks:\n      %s:\n        script: [\"%s\"]\n", p, extra, task, script)
 		}
 		y += fmt.Sprintf("  limited:\n    concurrency: %d\n    tasks:\n      hold:\n        script: [\"sleep 4\"]\n", limited)
 		y += fmt.Sprintf("  delayed:\n    concurrency: 1\n    queue_limit: 1\n    queue_strategy: replace\n    start_delay: %s\n    tasks:\n      t:\n        script: [\"true\"]\n", delay)
@@ -258,7 +263,7 @@ func RunReloadBinaryCase(seed int64, bin, workDir string) *HistResult {
 	const short, long = 100 * time.Millisecond, 4 * time.Second
 	versions := []version{
 		mk("A", []string{"main"}, "task_a", "", 1, short),
-		mk("B", []string{"main", "second"}, "task_b", "", 3, short),
+		mk("B", []string{"main", "second"}, "task_b", "    env:\n      PXV_VER: \"B\"\n", 3, short),
 		mk("C", []string{"main"}, "task_a", "    env:\n      K: \"\"\n", 1, short),
 		mk("D", []string{"main"}, "task_a", "    env:\n      L: \"\"\n", 1, short),
 		mk("E", []string{"main"}, "task_a", "    queue_limit: 0\n", 1, short),
@@ -501,6 +506,30 @@ func RunReloadBinaryCase(seed int64, bin, workDir string) *HistResult {
 		if !ok {
 			find("C17:edit-ignored-by-reload", "%s: SIGUSR1 was sent, but 10 s later the API still lists pipelines %v (file: %v) and a new job of 'main' has task %q (file: %q)", label, got, want, gotTask, next.task)
 			break
+		}
+		if next.name == "B" {
+			// the commands of a job accepted after the reload see the pipeline-level environment of the NEW definition,
+			// in a pipeline that was changed ("main") and in one that the reload added ("second")
+			for _, p := range []string{"main", "second"} {
+				id, code := schedule(p)
+				if code != 202 {
+					continue
+				}
+				var out struct{ Stdout string }
+				for i := 0; i < 500; i++ {
+					_, body := do("GET", "/job/logs?id="+id+"&task="+next.task, nil)
+					_ = json.Unmarshal(body, &out)
+					if strings.HasPrefix(out.Stdout, "ver=") && strings.HasSuffix(out.Stdout, "\n") {
+						break
+					}
+					time.Sleep(10 * time.Millisecond)
+				}
+				res.sit("C18", fmt.Sprintf("pipeline-level environment of a definition that arrived through a reload (%s)", p))
+				res.Evaluations["C18"]++
+				if out.Stdout != "ver=B\n" {
+					res.Findings = append(res.Findings, Finding{Props: []string{"C18", "C16"}, Sig: "C18:environment-of-reloaded-definition-not-in-force", Detail: fmt.Sprintf("%s: the files give pipeline %q the environment PXV_VER=B and the reload was applied, but the command of a job accepted afterwards printed %q (expected \"ver=B\\n\")", label, p, out.Stdout), Step: -1})
+				}
+			}
 		}
 		if cur.limited != next.limited && (cur.name == "B" || next.name == "B") {
 			// the listing changed, so the new definitions are in force: so is their concurrency limit
